@@ -731,13 +731,20 @@ class EncodingParser(object):
             self.data.position -= len(b"meta")
             return self.handlePossibleTag(False)
         # We have a valid meta element we want to search for attributes
-        hasPragma = False
-        pendingEncoding = None
+        gotPragma = False
+        needPragma = None
+        # None: no declaration seen yet; False: a charset attribute whose
+        # value is not an encoding label
+        charset = None
         attributeNames = set()
         while True:
             # Try to find the next attribute after the current position
             attr = self.getAttribute()
             if attr is None:
+                # ">" ends the element; at the end of the data currentByte
+                # raises StopIteration: no declaration in an unfinished tag
+                if self.data.currentByte == b">":
+                    break
                 return True
             elif attr[0] in attributeNames:
                 # only the first attribute of a name counts
@@ -745,27 +752,24 @@ class EncodingParser(object):
             else:
                 attributeNames.add(attr[0])
                 if attr[0] == b"http-equiv":
-                    hasPragma = attr[1] == b"content-type"
-                    if hasPragma and pendingEncoding is not None:
-                        self.encoding = pendingEncoding
-                        return False
+                    if attr[1] == b"content-type":
+                        gotPragma = True
                 elif attr[0] == b"charset":
-                    tentativeEncoding = attr[1]
-                    codec = lookupEncoding(tentativeEncoding)
-                    if codec is not None:
-                        self.encoding = codec
-                        return False
+                    charset = lookupEncoding(attr[1]) or False
+                    needPragma = False
                 elif attr[0] == b"content":
                     contentParser = ContentAttrParser(EncodingBytes(attr[1]))
                     tentativeEncoding = contentParser.parse()
-                    if tentativeEncoding is not None:
+                    if tentativeEncoding is not None and charset is None:
                         codec = lookupEncoding(tentativeEncoding)
                         if codec is not None:
-                            if hasPragma:
-                                self.encoding = codec
-                                return False
-                            else:
-                                pendingEncoding = codec
+                            charset = codec
+                            needPragma = True
+        # All attributes of the element have been read: decide
+        if needPragma is None or (needPragma and not gotPragma) or not charset:
+            return True
+        self.encoding = charset
+        return False
 
     def handlePossibleStartTag(self):
         return self.handlePossibleTag(False)
